@@ -28,11 +28,14 @@ type walker struct {
 }
 
 // Shape selects the shape abstraction of the hash: message identity and content are dropped (a message is
-// just "a message"), instants are taken relative to Now and all instants <= Now count as the same ("past"),
+// just "a message"), instants are taken relative to Now and all instants at least Horizon before Now count as the same ("past"),
 // and unsigned 64-bit counters are ignored. What remains is the shape of the data structure: lengths,
 // capacities, indices, topic lists, which slots are filled, and the time left until each future instant.
 type Shape struct {
 	Now time.Time
+	// Horizon: past instants less than Horizon ago keep their distance to Now (how long ago the last collection
+	// was decides when the next one is due); older ones count as the same.
+	Horizon time.Duration
 }
 
 func mix(h, v uint64) uint64 {
@@ -94,7 +97,7 @@ func (w *walker) walk(v reflect.Value) {
 			if t.IsZero() {
 				w.h = mix(w.h, 7)
 			} else if w.shape != nil {
-				if d := t.Sub(w.shape.Now); d <= 0 {
+				if d := t.Sub(w.shape.Now); d <= -w.shape.Horizon {
 					w.h = mix(w.h, 8)
 				} else {
 					w.h = mix(w.h, uint64(d))
